@@ -41,6 +41,7 @@ NAT, BOOL, UNIT, LAYOUT, DETAILS, CHUNK, ORD, BUMP = "nat", "bool", "unit", "lay
 RAWVEC, RERR, STRATEGY, FALLIB = "rawvec", "rerr", "strategy", "fallibility"
 CHUNKLIST, CELLPREV = "chunklist", "cellprev"
 ELEM, SLOT, VECSELF, GUARD = "elem", "slot", "vecself", "guard"
+SLICE, CB2 = "slice", "cb2"   # a sub-slice of the vector's buffer (first slot, length); a two-argument predicate (call log as data)
 EXTW = "extendwith"      # `impl ExtendWith<T>`: the one implementor, `ExtendElement(value)`, is the value it clones
 
 
@@ -70,6 +71,8 @@ def lean_ty(t):
     if t == SLOT: return "Nat"
     if t == GUARD: return "Nat"
     if t == EXTW: return "V.Elem"
+    if t == SLICE: return "(Nat × Nat)"
+    if t == CB2: return "(Nat → V.Elem → V.Elem → Option Bool)"
     if t == FALLIB: return "Rs.Fallibility"
     if isinstance(t, tuple) and t[0] == "tuple": return "(" + " × ".join(lean_ty(x) for x in t[1]) + ")"
     if t == "selfstruct": raise Untranslatable("the receiver struct is not a value")
@@ -83,6 +86,7 @@ def rust_ty(text):
     if t == "bool": return BOOL
     if t == "T": return ELEM
     if t == "E": return EXTW
+    if t == "[T]": return SLICE
     if t in ("()", ""): return UNIT
     if t == "Layout": return LAYOUT
     if t == "NewChunkMemoryDetails": return DETAILS
@@ -106,7 +110,7 @@ def rust_ty(text):
 # mode: 'pure' (no arena state) | 'read' (reads s, returns Outcome) | 'st' (threads s)
 class Fn:
     def __init__(self, name, kind, mode, file="src/lib.rs", anchor=None, nth=0, group="Arith", lean=None, self_ty=None,
-                 region=None, free=None, self_fields=None):
+                 region=None, free=None, self_fields=None, ptypes=None):
         self.name, self.kind, self.mode, self.file, self.anchor, self.nth, self.group = name, kind, mode, file, anchor, nth, group
         self.lean = lean or name
         self.self_ty = self_ty
@@ -117,6 +121,11 @@ class Fn:
         # `&mut self` methods of small state structs (an iterator's position): the listed fields are in/out parameters
         # of the translated function, which returns (value, final field values)
         self.self_fields = self_fields or []
+        # parameter types the signature leaves generic (closures)
+        self.ptypes = ptypes or {}
+
+    def param_ty(self, name, text):
+        return self.ptypes[name] if name in self.ptypes else rust_ty(text)
 
 
 FUNCS = [
@@ -197,6 +206,8 @@ FUNCS += [
        self_fields=[("local_len", "usize")]),
     Fn("truncate", "vec", "st", file=VEC_RS, group="Vec", anchor=VEC_IMPL, lean="vec_truncate"),
     Fn("extend_with", "vec", "st", file=VEC_RS, group="Vec", lean="vec_extend_with"),
+    Fn("partition_dedup_by", "vec", "st", file=VEC_RS, group="Vec", lean="vec_partition_dedup_by", ptypes={"same_bucket": CB2}),
+    Fn("dedup_by", "vec", "st", file=VEC_RS, group="Vec", anchor=VEC_IMPL, lean="vec_dedup_by", ptypes={"same_bucket": CB2}),
     Fn("resize", "vec", "st", file=VEC_RS, group="Vec", lean="vec_resize"),
     Fn("clear", "vec", "st", file=VEC_RS, group="Vec", anchor=VEC_IMPL, lean="vec_clear"),
 ]
@@ -605,6 +616,12 @@ class Tr:
                 return t, ty[1]
             if ty == CELLPREV and name == "get" and not args:
                 return f"(Rs.chunk_prev E {self.sv} {paren(t)})", CHUNK
+            if ty == VECSELF and name in ("as_slice", "as_mut_slice") and not args:
+                return f"(0, {self.sv}.1.len)", SLICE
+            if ty == SLICE and name == "len" and not args:
+                return f"{paren(t)}.2", NAT
+            if ty == SLICE and name in ("as_ptr", "as_mut_ptr") and not args:
+                return f"{paren(t)}.1", SLOT
             if ty == VECSELF and name in ("as_ptr", "as_mut_ptr") and not args:
                 return "0", SLOT       # a pointer into the buffer is the index of the slot it points at
             if ty == RAWVEC and name == "ptr" and not args and self.fn.kind == "vec":
@@ -730,6 +747,8 @@ class Tr:
             g = ("true", BOOL) if guard is None else self.pure(guard, env2)
             if g is None: return None
             return f"(match {t} with | {lp} => {g[0]} | _ => false)", BOOL
+        if k == "array" and not e[1]:
+            return "(0, 0)", SLICE      # `&mut []`
         if k == "tuple" and not e[1]:
             return "()", UNIT
         if k == "tuple" and len(e[1]) == 2:
@@ -798,6 +817,8 @@ class Tr:
             raise Untranslatable("`?` / `return` while a drop guard is live")
         if kind == "for":
             return self.FOR(e, env, k)
+        if kind == "while":
+            return self.WHILE(e, env, k)
         if kind == "try":
             def kt(t, ty, env_):
                 if isinstance(ty, tuple) and ty[0] == "res2":
@@ -1038,7 +1059,28 @@ class Tr:
         if segs[-1] == "unreachable_unchecked":
             return self.bad("unreachable_unchecked reached")
 
+        if len(segs) == 1 and segs[0] in env.d and env.d[segs[0]][1] == CB2 and len(args) == 2:
+            cbn = segs[0]
+
+            def kcb(pa, env_):
+                if pa[0][1] != SLOT or pa[1][1] != SLOT:
+                    raise Untranslatable("closure arguments")
+                cnt = env_.d[cbn + "__calls"][0]
+                e2, ea = env_.bind("a", ELEM)
+                e2, eb = e2.bind("b", ELEM)
+                e2, r = e2.bind("r", BOOL)
+                e3, cnt2 = e2.bind(cbn + "__calls", NAT)
+                self.bump_version()
+                return (f"(match RsM.read {paren(pa[0][0])} {self.sv}, RsM.read {paren(pa[1][0])} {self.sv} with\n"
+                        f"| some {ea}, some {eb} =>\n(match {env_.d[cbn][0]} {cnt} {ea} {eb} with\n| none => {self.panic(env_)}\n"
+                        f"| some {r} =>\nlet {cnt2} := {cnt} + 1;\n{k(r, BOOL, e3)})\n| _, _ => {self.bad('read of an uninitialised slot')})")
+            return self.args(args, env, kcb)
+
         def kall(pa, env_):
+            if self.fn.kind == "vec" and segs[-2:] == ["mem", "swap"] and len(pa) == 2 and pa[0][1] == SLOT and pa[1][1] == SLOT:
+                return self.bind_call(f"RsM.swap {sp(pa)}", "st", k, env_, UNIT, nopanic=True)
+            if self.fn.kind == "vec" and len(segs) == 1 and ("vec", n) in FN_BY_KIND:
+                return self.call_fn(FN_BY_KIND[("vec", n)], None, pa, env_, k)
             # constructor-like / pure functions whose arguments needed evaluation
             pp = self.pure(("call", f, [("path", [f"__a{i}"]) for i in range(len(pa))]),
                            Env({f"__a{i}": pa[i] for i in range(len(pa))}))
@@ -1092,7 +1134,7 @@ class Tr:
             lead = ["M"]
         if g.kind == "chunk":
             lead.append(paren(recv))
-        ptys = [rust_ty(t) for n_, t in g.sig["params"] if n_ != "self"]
+        ptys = [g.param_ty(n_, t) for n_, t in g.sig["params"] if n_ != "self"]
         coerced = []
         for i, (t, ty) in enumerate(pa):
             if ty == CHUNK and i < len(ptys) and ptys[i] == NAT:
@@ -1246,6 +1288,67 @@ class Tr:
             return "\n".join(lines) + ("\n" if lines else "") + k("()", UNIT, e3)
         return self.bind_call(call, "st", K(kafter), env, ("tuple", [env.d[m][1] for m in muts]) if len(muts) > 1 else (env.d[muts[0]][1] if muts else UNIT), nopanic=True)
 
+    def WHILE(self, e, env, k):
+        """`while cond { body }`: a lambda-lifted function recursive on a fuel argument (started at `2^64`: every loop of the
+        translated subset advances an index below `usize::MAX`; running out of fuel is `bad`).  Like `FOR`, it returns the final
+        values of the locals the body rebinds."""
+        _, cond, body = e
+        if not self.st:
+            raise Untranslatable("loop in a function translated without state")
+        muts = sorted((assigned(body) | guard_calls(body) | cb_keys(body, env)) & set(env.d))
+        for m in muts:
+            if not lean_ty_ok(env.d[m][1]):
+                raise Untranslatable(f"loop state {m} : {env.d[m][1]}")
+        self.nj += 1
+        name = f"{self.fn.lean}.loop_{self.nj}"
+        old_mut_names = [env.d[m][0] for m in muts]
+        captured = [(ln, t) for ln, t in env.scope if lean_ty_ok(t) and ln not in old_mut_names]
+        envl = env.copy()
+        envl.scope = [(ln, t) for ln, t in envl.scope if ln not in old_mut_names]
+        envl, fuel = envl.bind("fuel", NAT)
+        envl, fuel1 = envl.bind("fuel", NAT)
+        mut_params = []
+        for m in muts:
+            envl, ln = envl.bind(m, env.d[m][1])
+            mut_params.append(f"({ln} : {lean_ty(env.d[m][1])})")
+        tys = [lean_ty(env.d[m][1]) for m in muts]
+        rty = "Unit" if not muts else (tys[0] if len(muts) == 1 else "(" + " × ".join(tys) + ")")
+
+        def pack(e_):
+            vals = [e_.d[m][0] for m in muts]
+            return "()" if not vals else (vals[0] if len(vals) == 1 else "(" + ", ".join(vals) + ")")
+        lead_args = " ".join(self.lead_names)
+        cap_args = " ".join(ln for ln, _ in captured)
+        saved_version = self.version
+        self.in_closure += 1
+        self.no_join += 1
+        self.bump_version()
+
+        def kc(tc, tyc, ec):
+            if tyc != BOOL:
+                raise Untranslatable("loop condition")
+            again = K(lambda t, ty, e_: f"(Gen.Fn.{name} {lead_args} {cap_args} {fuel1} {' '.join(e_.d[m][0] for m in muts)} {self.sv})")
+            return f"(if {tc} then\n{self.E(body, ec, again)}\nelse ({self.sv}, Outcome.ok {pack(ec)}))"
+        inner = self.E(cond, envl, K(kc))
+        self.in_closure -= 1
+        self.no_join -= 1
+        self.version = saved_version
+        params = [f"({ln} : {lean_ty(t)})" for ln, t in captured]
+        self.lifted.append(
+            f"def {name} {' '.join(self.lead)} {' '.join(params)} ({fuel} : Nat) {' '.join(mut_params)} ({self.sv} : {self.sty}) : {self.sty} × Outcome {rty} :=\n"
+            + indent(f"(match {fuel} with\n| 0 => {self.bad('loop fuel exhausted')}\n| {fuel1} + 1 =>\n{inner})") + "\n")
+        call = f"Gen.Fn.{name} {lead_args} {cap_args} USIZE {' '.join(env.d[m][0] for m in muts)}"
+
+        def kafter(r, ty_, e2):
+            lines, e3 = [], e2
+            for j, m in enumerate(muts):
+                e3, ln = e3.bind(m, env.d[m][1])
+                proj = r if len(muts) == 1 else r + "".join(".2" for _ in range(j)) + (".1" if j < len(muts) - 1 else "")
+                lines.append(f"let {ln} := {proj};")
+            return "\n".join(lines) + ("\n" if lines else "") + k("()", UNIT, e3)
+        rt = ("tuple", [env.d[m][1] for m in muts]) if len(muts) > 1 else (env.d[muts[0]][1] if muts else UNIT)
+        return self.bind_call(call, "st", K(kafter), env, rt, nopanic=True)
+
     def MCALL(self, e, env, k):
         recv, name, args = e[1], e[2], e[3]
         if name == "next" and not args and recv[0] == "mcall" and recv[2] == "filter_map" and len(recv[3]) == 1 \
@@ -1350,6 +1453,10 @@ class Tr:
                                Env(dict({f"__a{i}": pa[i] for i in range(len(pa))}, __r=(t, ty))))
                 if pp is not None:
                     return k(pp[0], pp[1], env2)
+                if ty == SLICE and name in ("split_at_mut", "split_at") and len(pa) == 1 and pa[0][1] == NAT:
+                    a = pa[0][0]
+                    return self.check(f"decide ({a} ≤ {paren(t)}.2)", "split_at", k(f"(({paren(t)}.1, {a}), ({paren(t)}.1 + {a}, {paren(t)}.2 - {a}))",
+                                                                                  ("tuple", [SLICE, SLICE]), env2), asserting=True, env=env2)
                 if ty == NAT and name == "add" and len(pa) == 1:
                     a = pa[0][0]
                     return self.check(f"{t} + {a} < USIZE", "pointer add wraps", k(f"({t} + {a})", NAT, env2))
@@ -1507,6 +1614,7 @@ class Tr:
     def function(self):
         env = Env()
         params = list(self.lead)
+        cb_params = []
         for f_, ft in self.fn.self_fields:
             ty = rust_ty(ft)
             env, ln = env.bind("self." + f_, ty)
@@ -1519,14 +1627,21 @@ class Tr:
                     env, ln = env.bind("self", CHUNK)
                     params.append(f"({ln} : Chunk)")
                 continue
-            ty = rust_ty(t)
+            ty = self.fn.param_ty(n, t)
             env, ln = env.bind(n, ty)
             if ty in (ELEM, EXTW) and self.fn.kind == "vec":
                 env = env.own(ln)
             params.append(f"({ln} : {lean_ty(ty)})")
+            if ty == CB2:
+                cb_params.append(n)
         if self.mode in ("read", "st"):
             params.append(f"({self.sv} : {self.sty})")
+        pre = ""
+        for n in cb_params:      # the number of calls made so far to this closure (its answers are data indexed by it)
+            env, ln = env.bind(n + "__calls", NAT)
+            pre += f"let {ln} := 0;\n"
         body = self.E(self.body, env, K(lambda t, ty, e: self.RET_END(t, ty, e), True))
+        body = pre + body if not pre else "(" + pre + body + ")"
         head = f"def {self.fn.lean} {' '.join(params)} : {self.ret_lean_ty()} :="
         return "\n".join(self.lifted) + ("\n" if self.lifted else "") + f"/-- `{self.fn.file}`: `fn {self.fn.name}` -/\n" + head + "\n" + indent(body) + "\n"
 
@@ -1588,6 +1703,20 @@ def mentioned(e):
     elif isinstance(e, list):
         for x in e:
             out |= mentioned(x)
+    return out
+
+
+def cb_keys(e, env):
+    """hidden call counters of the closures called anywhere inside an AST"""
+    out = set()
+    if isinstance(e, tuple):
+        if e and e[0] == "call" and e[1][0] == "path" and len(e[1][1]) == 1 and (e[1][1][0] + "__calls") in env.d:
+            out.add(e[1][1][0] + "__calls")
+        for x in e:
+            out |= cb_keys(x, env)
+    elif isinstance(e, list):
+        for x in e:
+            out |= cb_keys(x, env)
     return out
 
 
